@@ -6,6 +6,7 @@ EA = "E-A REPLICA-OPSEQ"
 EB = "E-B CTRL-BFS"
 EC = "E-C FS-CRASH"
 EF = "E-F CLUSTER"
+ED = "E-D SCHED"
 checks = {
  "C06": dict(engine=EA, design="§3 E-A, §4 C06",
    text="Explicit-state BFS over every operation sequence (writes of each shape, user/automatic snapshots, system-performed removals, mark-removed, reopen with preload, rebuild-style reload+UpdateLUNMap, revert) up to the stated depth on a real on-disk replica with hole punching on; in every reachable state every retained user snapshot is compared byte-for-byte with the reference model, both by an independent extent walk over the chain files and by copying the directory, reverting the copy with the real code and reading it.",
@@ -17,8 +18,8 @@ checks = {
    note="Trusted: reference model, ext4 FIEMAP. Bounds: <=3 blocks, depth as reported in evidence (budgeted), <=4 snapshots. The controller's out-of-range clause is decided by engine E-B once built.",
    technique="explicit-state BFS with replay on the real replica.Server vs reference model"),
  "C10": dict(engine=EA, design="§3 E-A, §4 C10",
-   text="Explicit-state BFS over sequences of writes, mode flips RW/WO, SetRevisionCounter, close/open, reload, snapshot and reopen on a real replica; after every path the persisted revision counter equals the model's (+1 per write applied while RW, unchanged in WO, SetRevisionCounter only in RW) and is the same after close/reopen.",
-   note="Sequential histories only in this engine; concurrent writers (E-D) and crash points (E-C) are separate parts. Bounds: 1 block, depth 6/8.",
+   text="Explicit-state BFS over sequences of writes, mode flips RW/WO, SetRevisionCounter, close/open, reload, snapshot and reopen on a real replica; after every path the persisted revision counter equals the model's (+1 per write applied while RW, unchanged in WO, SetRevisionCounter only in RW) and is the same after close/reopen. Part 2 (engine E-D): all interleavings up to preemption bound 3 of 2-3 concurrent writers (+ a counter reader, + a mode flip) on one real replica: final counter = initial + number of writes applied while RW, persisted value equal. Part 3 (engine E-C): at every file-system-call boundary of a write (RW and WO) and of SetRevisionCounter the reopened counter is old or new and never lower.",
+   note="Bounds: 1 block, depth 6/8 (sequential); 18 thread configurations at P<=3 (thorough 4); 380 crash points. Promotion equalising the counters is checked by E-B/E-F (C04, C07).",
    technique="explicit-state BFS with replay on the real replica.Server vs reference model"),
  "C11": dict(engine=EA, design="§3 E-A, §4 C11",
    text="(1) BFS over every chain of up to 5 (thorough 6) snapshots x user/auto x marked-removed x every checkpoint position, built with real operations; in every state the real GetDeleteCandidateChain must return only snapshots strictly between base and checkpoint that are not retained user snapshots and whose parent is not one. (2) BFS from three non-initial chains in which every deletion the cleaner itself would perform (each candidate the real filter returns, via prepare -> fold -> RemoveDiffDisk) is an event, interleaved with writes/snapshots/marks; after every path live data and every retained user snapshot are compared with the model (extent walk and revert-on-copy); head/latest/base deletion requests must be refused with the state unchanged.",
@@ -50,7 +51,7 @@ checks = {
    note="Model nodes hold real byte images; reader order is canonicalised between events (Go map order) and every cursor position is reached by consecutive reads.",
    technique="explicit-state BFS with replay on the real controller, all failing reader subsets"),
  "C05": dict(engine=EB, design="§3 E-B, §4 C05",
-   text="Explicit-state BFS in which faults (I/O error on any subset, monitor/ping failure, explicit removal) hit at every point of short workloads and are noticed in every order (monitor wake-ups are ordinary events that may be delayed past later operations, including the stale wake-up after a re-add): the operation in flight succeeds iff a strict majority of writers containing a RW replica applied it, failed replicas end up detached and receive no further call, survivors hold all acknowledged data, a detached replica returns only through add -> WO -> verify.",
+   text="Explicit-state BFS in which faults (I/O error on any subset, monitor/ping failure, explicit removal) hit at every point of short workloads and are noticed in every order (monitor wake-ups are ordinary events that may be delayed past later operations, including the stale wake-up after a re-add): the operation in flight succeeds iff a strict majority of writers containing a RW replica applied it, failed replicas end up detached and receive no further call, survivors hold all acknowledged data, a detached replica returns only through add -> WO -> verify. Part 2 (engine E-D): all interleavings (P<=3, one timer deviation) of the real remote.monitorPing, StopMonitoring/Close and rpc.Client error paths with a controller-style consumer and a concurrent write: a ping or transport failure is always reported on the monitor channel, the monitor goroutine exits, no send blocks.",
    note="Model nodes; the real monitorPing/rpc.Client error paths are engine E-D's subject. Up to 3 faults per path.",
    technique="explicit-state BFS with replay on the real controller, fault point x failing subset x notice order"),
  "C09": dict(engine=EB, design="§3 E-B, §4 C09",
@@ -62,20 +63,28 @@ checks = {
    note="Model nodes with byte images. RF 2-3.",
    technique="explicit-state BFS with replay on the real controller"),
  "C18": dict(engine=EB, design="§3 E-B, §4 C18",
-   text="Explicit-state BFS over every event kind including duplicates and unknown addresses (register, start by the wrong replica, add of an attached address, verify of any address, remove of unknown, REST ERR/RW, I/O with one failing subset, monitor failures and delayed wake-ups, restarts) with 3-4 node identities: in every quiescent state addresses are unique, at most RF data replicas, at most one WO, RWReplicaCount equals the RW entries, replica list and backend map agree, writer/reader index maps are exactly the non-ERR / RW backends; a detached backend never receives a call.",
+   text="Explicit-state BFS over every event kind including duplicates and unknown addresses (register, start by the wrong replica, add of an attached address, verify of any address, remove of unknown, REST ERR/RW, I/O with one failing subset, monitor failures and delayed wake-ups, restarts) with 3-4 node identities: in every quiescent state addresses are unique, at most RF data replicas, at most one WO, RWReplicaCount equals the RW entries, replica list and backend map agree, writer/reader index maps are exactly the non-ERR / RW backends; a detached backend never receives a call. Part 2 (engine E-D): for 27 pairs (thorough: + triples) of concurrent controller calls from three memberships, every interleaving at lock/goroutine granularity up to preemption bound 3 yields per-call results and a final state equal to those of some sequential order.",
    note="Model nodes. Invariants are evaluated in quiescent states (no undelivered monitor wake-up); per-call oracles run always.",
    technique="explicit-state BFS with replay on the real controller"),
  "C07": dict(engine=EF, design="§3 E-F, §4 C07",
    text="Explicit-state BFS on an in-process cluster of REAL replica.Server nodes behind the real replica/rest and controller/rest routers, with the real sync.Task.AddReplica running for the joining replica under step control: every top-level HTTP request of the task and the unlocked window inside UpdateLUNMap is a gate, and at every gate the explorer may insert foreground writes (also onto blocks that are being synced), a read, or kill the joining process (then monitor failure, restart and a retried rebuild); joiner empty or diverged (it missed writes and an add-time snapshot). At promotion the rebuilt replica's chain, revision counter, live image and every snapshot image (revert-on-copy) must equal the source's; before promotion no read is served by it and it holds every write acknowledged since it was attached; never two WO replicas; a killed rebuild leaves it out of the reader list.",
    note="Stand-in: jiva's sync-agent (a process launcher around ssync/sfold) is replaced by an in-process transfer with the same result (destination = source, data and holes, written into the existing inode). Several replica.Server in one process share package globals (HoleCreatorChan, ShouldPunchHoles). The background snapshot cleaner's ticker is not driven. RF=3, 4-block volume, <=3 foreground writes per rebuild.",
    technique="explicit-state BFS over gate-by-gate interleavings of the real rebuild task with foreground I/O on real replicas"),
+ "C15": dict(engine=ED, design="§3 E-D, §4 C15",
+   text="(1) Exhaustive codec product: rpc.Wire.Write -> rpc.Wire.Read for every type x boundary seq/offset/size values x payload lengths around the 8096-byte buffer x patterns, every truncation point of an encoded frame and bad magic. (2) Stateless exploration of ALL interleavings, up to a preemption bound and a timer/fault deviation bound, of a real rpc.Client (its loop/read/write goroutines, channels, select statements, sleeps and timers turned into scheduling points by an AST rewrite applied at check time) with 2-3 caller threads, a scripted peer that answers in every permutation of reply order and may stall, close or corrupt at every frame: every caller gets the reply to its own request, after a transport error or deadline every pending and later request returns an error and no thread stays blocked once all armed timers fired, and a token reaches closeChan.",
+   note="Scheduling points are synchronisation operations; unsynchronised accesses are reported by a separate free-running -race pass of the same harness bodies (listed in the evidence). Requests that fail only at their own 30 s deadline after racing with the poisoning of the client are recorded as observations (late-fail), as is a failed request being transmitted as an error frame; see DESIGN.",
+   technique="stateless DFS over goroutine schedules with preemption/deviation bounding on the rewritten real code + exhaustive codec product"),
+ "C19": dict(engine=EF, design="§3 E-F, §4 C19",
+   text="Explicit-state BFS over all interleavings of two real procedures under step control on real replicas: the new volume's Controller.Start (attaches the clone and polls its clone status while holding the controller lock; every poll is a gate) and the clone process's start-up tail (status inProgress -> real app.CloneReplica / sync.Task.CloneReplica: list source replicas, set rebuilding, copy the chain from S downward, update clone info, reload, UpdateLUNMap, clear rebuilding -> status completed/error; every HTTP step is a gate), for every snapshot S of the source history, with source-side writes during the copy, a source outage, and a killed and restarted clone process: the clone is RW in the new volume only when its status is completed/NA, whenever it reports completed its image equals the source's revert-on-copy image of S and its revision counter is the one recorded for S, a failed clone reports error and is not RW.",
+   note="app.startReplica's status bracket (an unexported CLI action that listens on sockets) is re-stated in the harness (eb/clone.go); the sync-agent is the in-process stand-in of C07. RF=1 for both volumes, 4-block volume.",
+   technique="explicit-state BFS over gate-by-gate interleavings of the real clone task and the real controller start on real replicas"),
  "C08": dict(engine=EC, design="§3 E-C, §4 C08", level="fault_enumeration",
    text="For every (pre-state, operation) pair of a bounded set, a ptrace tracer stops the real replica process at the entry of every file-system call of the operation: the directory as it is at each boundary is copied (= process death there), reopened with the real code and compared with the reference (chain before or after, acknowledged bytes, retained snapshots by revert-on-copy, revision counter); every single call is also made to fail with ENOSPC/EIO and the reported outcome is compared with the reopened state; the call trace of every successful operation is linted for directory fsync after namespace changes and synced metadata.",
    note="Trusted: the tracer (tools/fstrace/fstrace.c), ext4. Power-loss reordering below the syscall boundary is covered only by the durability lint. Known findings (failure reported after the commit point, success after a failed final flush) are listed in known_findings.json.",
    technique="exhaustive crash-point and single-fault enumeration at system-call granularity (ptrace)"),
 }
-planned = {"C08": "check built (engine E-C) but still being made quiet on the unchanged tree: known findings not merged yet; will be claimed in the next revision"}
-HOLD = {"C08"}
+planned = {}
+HOLD = set()
 ALL = ["C%02d" % i for i in range(1, 20)]
 
 def main():
@@ -96,6 +105,8 @@ def main():
         "kind_free_text": "explicit-state breadth-first search over controller events on a real controller.Controller with real *remote.Remote backends, scripted per-replica failures, harness-played monitor goroutines, model replica nodes behind the real REST clients"},
        {"name": EF, "path": "harness/eb (rebuild.go, realnode.go), harness/cmd/eb", "serves_properties": ["C07", "C19"],
         "kind_free_text": "E-B's cluster with real replica nodes, real REST routers and the real replica-side tasks (rebuild, clone) run under step control: explicit-state search over gate-by-gate interleavings"},
+       {"name": ED, "path": "harness/ed, harness/cmd/ed, tools/instr, shim/vs, shim/vsync, shim/vtimev", "serves_properties": ["C15", "C10", "C05", "C18"],
+        "kind_free_text": "cooperative scheduler + deviation-bounded stateless DFS over goroutine interleavings of the real rpc / remote / replica / controller code, instrumented at check time by an AST rewrite of go/chan/select/sync/time constructs"},
        {"name": EC, "path": "harness/ec, harness/cmd/ec, tools/fstrace", "serves_properties": ["C08", "C10"],
         "kind_free_text": "ptrace-driven enumeration of every file-system-call boundary (crash) and every single failing call of replica operations from bounded pre-states"},
      ],
